@@ -7,6 +7,9 @@
 //!   * a value that is not a live token is dropped (never produced, or dropped before), or
 //!   * the combinator resolves to a `Vec` with an element that is not a live token.
 //! Leaks after a destructor panic are not counted (leaking is the safe outcome).
+//! A second family has no panic at all but futures *without drop glue* (the history language's
+//! children all have a logging destructor): there every output produced must have been dropped
+//! exactly once when the combinator is gone, whatever the point at which it is dropped.
 //! Memory the crate allocates is pre-filled with 0xA5 by the allocator wrapper, so an
 //! uninitialised cell never looks like a token.
 
@@ -129,6 +132,88 @@ impl Future for BTry {
             Poll::Pending
         }
     }
+}
+
+/// A future without drop glue (plain data, no `Drop`): `needs_drop::<Plain>()` is false, while its
+/// output has a destructor.  Completes on poll number `ready_after + 1`.
+struct Plain {
+    ready_after: usize,
+    polls: usize,
+    fail: bool,
+}
+
+impl Plain {
+    fn step(&mut self, cx: &mut Context<'_>) -> bool {
+        self.polls += 1;
+        // a pending one does not wake itself: it stays pending for the rest of the scenario
+        let _ = cx;
+        self.polls > self.ready_after
+    }
+}
+
+struct PlainFut(Plain);
+impl Future for PlainFut {
+    type Output = BTok;
+    fn poll(mut self: Pin<&mut Self>, cx: &mut Context<'_>) -> Poll<BTok> {
+        if self.0.step(cx) { Poll::Ready(BTok::new()) } else { Poll::Pending }
+    }
+}
+
+struct PlainTry(Plain);
+impl Future for PlainTry {
+    type Output = Result<BTok, BTok>;
+    fn poll(mut self: Pin<&mut Self>, cx: &mut Context<'_>) -> Poll<Result<BTok, BTok>> {
+        if self.0.step(cx) {
+            Poll::Ready(if self.0.fail { Err(BTok::new()) } else { Ok(BTok::new()) })
+        } else {
+            Poll::Pending
+        }
+    }
+}
+
+/// No panic anywhere: `polls` polls, then the combinator (or what it resolved to) is dropped.
+/// Every output produced must have been dropped exactly once by then.
+fn run_plain(try_: bool, n: usize, mask: usize, fail_at: Option<usize>, polls: usize) -> Vec<String> {
+    REG.with(|r| *r.borrow_mut() = Reg::default());
+    let waker = noop_waker();
+    let mut cx = Context::from_waker(&waker);
+    let mk = |i: usize| Plain {
+        // the inputs in `mask` complete on their first poll, the others never
+        ready_after: if mask >> i & 1 == 1 { 0 } else { usize::MAX },
+        polls: 0,
+        fail: fail_at == Some(i),
+    };
+    if try_ {
+        let futs: Vec<PlainTry> = (0..n).map(|i| PlainTry(mk(i))).collect();
+        let mut j = Box::pin(in_crate(move || try_join_all(futs)));
+        for _ in 0..polls {
+            match in_crate(|| j.as_mut().poll(&mut cx)) {
+                Poll::Ready(Ok(v)) => { check_vec(&v, "try_join_all"); drop(v); break; }
+                Poll::Ready(Err(e)) => { check_vec(std::slice::from_ref(&e), "try_join_all (Err)"); drop(e); break; }
+                Poll::Pending => {}
+            }
+        }
+        in_crate(move || drop(j));
+    } else {
+        let futs: Vec<PlainFut> = (0..n).map(|i| PlainFut(mk(i))).collect();
+        let mut j = Box::pin(in_crate(move || join_all(futs)));
+        for _ in 0..polls {
+            match in_crate(|| j.as_mut().poll(&mut cx)) {
+                Poll::Ready(v) => { check_vec(&v, "join_all"); drop(v); break; }
+                Poll::Pending => {}
+            }
+        }
+        in_crate(move || drop(j));
+    }
+    crate::galloc::reset_depths();
+    REG.with(|r| {
+        let mut r = r.borrow_mut();
+        let mut bad = std::mem::take(&mut r.bad);
+        if !r.live.is_empty() {
+            bad.push(format!("{} output(s) produced inside the crate were never dropped (leak)", r.live.len()));
+        }
+        bad
+    })
 }
 
 fn noop_waker() -> Waker {
@@ -259,6 +344,37 @@ pub fn run_all(out_path: &str) -> bool {
                                 all_ok = false;
                                 let _ = writeln!(out, "bomb {name} VIOLATION {}", bad.join("; "));
                             }
+                        }
+                    }
+                }
+            }
+        }
+    }
+    // futures without drop glue, no panic: early drop at every point, error path, completion
+    for try_ in [false, true] {
+        for n in 1..=4usize {
+            for mask in 0..(1usize << n) {
+                for polls in 0..=2usize {
+                    let fails: Vec<Option<usize>> = if try_ {
+                        let mut v = vec![None];
+                        v.extend((0..n).map(Some));
+                        v
+                    } else {
+                        vec![None]
+                    };
+                    for fail_at in fails {
+                        let name = format!(
+                            "{} plain n={n} ready={mask:#b} fail={} polls={polls}",
+                            if try_ { "try_join_all" } else { "join_all" },
+                            fail_at.map_or("-".to_string(), |i| i.to_string())
+                        );
+                        let bad = run_plain(try_, n, mask, fail_at, polls);
+                        count += 1;
+                        if bad.is_empty() {
+                            let _ = writeln!(out, "bomb {name} ok");
+                        } else {
+                            all_ok = false;
+                            let _ = writeln!(out, "bomb {name} VIOLATION {}", bad.join("; "));
                         }
                     }
                 }
